@@ -1215,16 +1215,15 @@ func (fr *Frame) convert(x *ssa.Convert, st *State) Val {
 	case kf == KInt && kt == KInt:
 		return fr.nameVal(Val{T: to, S: m.convInt(v.S, from, to)}, x.Name())
 	case kf == KSlice && kt == KStr:
-		// string(bytes)
-		fc.declareFun("str!of", "(Int "+m.idxSort()+" "+m.idxSort()+" Int) Str")
-		ver := fc.freshName("strver")
-		fc.declareConst(ver, "Int")
-		s := Val{T: to, S: sx("str!of", v.Sub[0].S, v.Sub[1].S, v.Sub[2].S, sym(ver))}
-		fc.define(sEq(sx("strlen", s.S), v.Sub[2].S))
-		return s
+		// string(bytes): a function of the bytes' content (row, offset, length)
+		return Val{T: to, S: fc.bytesStr(st, v)}
 	case kf == KStr && kt == KSlice:
+		// []byte(s): a fresh slice whose content, read back as a string, is s
 		r := fc.freshVal(to, fr.tagStr+x.Name())
 		fc.define(sAnd(sEq(r.Sub[2].S, sx("strlen", v.S)), sEq(r.Sub[1].S, m.intConstI(0, tInt))))
+		if et, ok := to.Underlying().(*types.Slice); ok && typeKey(et.Elem()) == "uint8" {
+			fc.define(sEq(fc.bytesStr(st, r), v.S))
+		}
 		return r
 	case kf == KRef && kt == KRef:
 		return Val{T: to, S: v.S}
@@ -1638,6 +1637,22 @@ func isPkgLevel(o types.Object) bool {
 }
 
 // Precise map model (besides the length): per map type, dom : ref -> key -> Bool and, for scalar values, val : ref -> key -> V.
+// bytesStr: the string made of the bytes of slice v in state st (uninterpreted function of row content, offset, length).
+func (fc *FnCtx) bytesStr(st *State, v Val) string {
+	m := fc.m
+	et := types.Type(tByte)
+	if sl, ok := v.T.Underlying().(*types.Slice); ok {
+		et = sl.Elem()
+	}
+	n := "E!" + typeKey(et)
+	fc.regArr(n, "(Array Int (Array "+m.idxSort()+" "+m.scalarSort(et)+"))")
+	fn := "bytes!str!" + typeKey(et)
+	fc.declareFun(fn, "((Array "+m.idxSort()+" "+m.scalarSort(et)+") "+m.idxSort()+" "+m.idxSort()+") Str")
+	s := sx(fn, sx("select", st.get(n), v.Sub[0].S), v.Sub[1].S, v.Sub[2].S)
+	fc.define(sEq(sx("strlen", s), v.Sub[2].S))
+	return s
+}
+
 func (fc *FnCtx) mapArrs(mt types.Type, ref string) (dom, val string, ks string, scalarV bool) {
 	m, ok := mt.Underlying().(*types.Map)
 	if !ok {
